@@ -11,12 +11,12 @@ RUNS = {
          "keyfn": "k1"},
         {"name": "K1-codec-primitives", "mode": "kprim", "budget": (30, 600), "nontrivial": r"out=x..|overrun=0", "keyfn": "generic"},
         {"name": "K3-reconstruction-over-both-read-paths", "mode": "k3", "budget": (120, 3000), "nontrivial": r"recv\d+=(msg|proto)", "keyfn": "generic"},
-        {"name": "K7-messages-intact-while-in-use", "mode": "kalias", "budget": (70, 1400), "nontrivial": r"answered=1", "keyfn": "generic"},
+        {"name": "K7-messages-intact-while-in-use", "mode": "kalias", "budget": (96, 1600), "nontrivial": r"answered=1", "keyfn": "generic"},
     ],
     "C11": [
         {"name": "K6-chunk", "mode": "kchunk", "budget": (20000, 400000), "nontrivial": r"calls=\d+@\d+,", "keyfn": "generic"},
         {"name": "K6-client-io", "mode": "kneg", "budget": (1500, 30000), "nontrivial": r"ok=1", "keyfn": "generic"},
-        {"name": "K7-messages-intact-while-in-use", "mode": "kalias", "budget": (70, 1400), "nontrivial": r"answered=1", "keyfn": "generic"},
+        {"name": "K7-messages-intact-while-in-use", "mode": "kalias", "budget": (96, 1600), "nontrivial": r"answered=1", "keyfn": "generic"},
     ],
     "C12": [
         {"name": "K6-version", "mode": "kver", "budget": (10000, 60000), "nontrivial": r"ok=1|rmsize=[1-9]", "keyfn": "generic"},
@@ -66,7 +66,7 @@ RUNS = {
         {"name": "K7-reply-content-under-concurrency", "mode": "k7tags", "budget": (90, 2000), "nontrivial": r"missing=0", "keyfn": "generic"},
         {"name": "K7-replies-across-connections", "mode": "kxconn", "budget": (6, 120), "nontrivial": r"bad=0", "keyfn": "generic"},
         {"name": "K6-client-replies-keep-their-content", "mode": "kmux", "budget": (600, 6000), "nontrivial": r".", "keyfn": "generic"},
-        {"name": "K7-messages-intact-while-in-use", "mode": "kalias", "budget": (70, 1400), "nontrivial": r"answered=1", "keyfn": "generic"},
+        {"name": "K7-messages-intact-while-in-use", "mode": "kalias", "budget": (96, 1600), "nontrivial": r"answered=1", "keyfn": "generic"},
     ],
     "C19": [
         {"name": "K8-readdir", "mode": "k19", "budget": (600, 6000), "nontrivial": r"pages=([3-9]|\d\d)", "keyfn": "generic"},
@@ -81,7 +81,7 @@ RUNS = {
         {"name": "K6-long-xattr-values", "mode": "kxattr", "budget": (40, 600), "nontrivial": r"whole=1", "keyfn": "generic"},
         {"name": "K5-current-name-after-renames", "mode": "k5", "budget": (12000, 120000), "nontrivial": r"ok=1|^rtyp=(?!7 )", "keyfn": "k5"},
         {"name": "K6-fid-in-flight", "mode": "kmuxfid", "budget": (60, 2000), "nontrivial": r"formed=1", "keyfn": "generic"},
-        {"name": "K7-messages-intact-while-in-use", "mode": "kalias", "budget": (70, 1400), "nontrivial": r"answered=1", "keyfn": "generic"},
+        {"name": "K7-messages-intact-while-in-use", "mode": "kalias", "budget": (96, 1600), "nontrivial": r"answered=1", "keyfn": "generic"},
     ],
     "C10": [
         {"name": "K6-pool", "mode": "kpool", "budget": (10000, 100000), "nontrivial": r"x", "keyfn": "generic"},
@@ -126,7 +126,7 @@ RUNS = {
         {"name": "K2-server-receive-loop", "mode": "k2srv", "budget": (400, 12000), "nontrivial": r"replies=\d", "keyfn": "generic"},
         {"name": "K2-limit-after-version", "mode": "kmsz", "budget": (400, 20000), "nontrivial": r"reply=0", "keyfn": "generic"},
         {"name": "K3-both-read-paths", "mode": "k3", "budget": (40, 1000), "nontrivial": r"recv\d+=(msg|proto)", "keyfn": "generic"},
-        {"name": "K7-messages-intact-while-in-use", "mode": "kalias", "budget": (70, 1400), "nontrivial": r"answered=1", "keyfn": "generic"},
+        {"name": "K7-messages-intact-while-in-use", "mode": "kalias", "budget": (96, 1600), "nontrivial": r"answered=1", "keyfn": "generic"},
     ],
 }
 
@@ -741,6 +741,17 @@ for _p in ("C19", "C20"):
 PROPS["C20"]["rule"] = PROPS["C20"].get("rule", "") + " kltqc: eight goroutines make the first lookup of one (device, inode) pair outside the compact encoding at the same moment: one answer."
 PROPS["C03"]["rule"] = PROPS["C03"].get("rule", "") + (" k4: the same fid again after a request that failed inside the backend (a retried Open reaches the File again); kxattr: attribute "
     "values longer than a frame and longer than 64 KiB come back whole.")
+PROPS["C06"]["rule"] = PROPS["C06"].get("rule", "") + (" k7pair also releases the second request first when it could enter the backend: it must be *answered* while the first is "
+    "still held (bdone) - nothing a handler does after its backend call may wait for a lock the contract does not give the first.")
+for _p in ("C11", "C12"):
+    PROPS[_p]["rule"] = PROPS[_p].get("rule", "") + (" kneg: the fake server's Rlopen recommends an I/O unit (0, 512, 4096, 128 KiB, twice the msize, 1 GiB): chunk sizes stay those of the "
+        "negotiated payload size; after negotiation Mkdir / Create / Symlink / Mknod / WalkGetAttr start with the request type of the version in the *reply*; a client call that "
+        "does not return within 20 s is reported as hung.")
+PROPS["C12"]["rule"] = PROPS["C12"].get("rule", "") + " kver: version strings of 8000..65535 bytes (answered, not dropped)."
+PROPS["C02"]["rule"] = PROPS["C02"].get("rule", "") + " k2srv frames include Tflush of idle tags (replies without a body) before rejected frames with a body."
+for _p in ("C01", "C02", "C03", "C11", "C18"):
+    PROPS[_p]["rule"] = PROPS[_p].get("rule", "") + (" kalias readdirs: 2..4 connections list their own directories at once with blocked reply writers; every Rreaddir must carry "
+        "entries of its own directory only.")
 PROPS["C10"]["level_text"] += (" Recycled response objects (Conc/RespPool.lean, after defect D20): over all clients of the process and every "
     "interleaving of calls starting, failing to send, being answered, connections failing and calls returning, a pooled response is referenced "
     "by no pending map and its channel is empty, no response serves two calls, and handleOne never blocks on a done channel while holding the "
